@@ -87,6 +87,7 @@ func (k *checker) canvasRules() {
 	c.R.Floor("SEQ-2", 2)
 	c.R.Floor("SEQ-3", 2)
 	c.R.Floor("AXIS-1", 10)
+	c.R.Floor("AXIS-2", 8)
 
 	if len(p.Controls) > 0 {
 		for _, fn := range ctl {
